@@ -185,6 +185,9 @@ def add_words(r, o, n=None, forbidden=""):
         base = r.choice(RESERVED_BASES)
         subs = [base[i:j] for i in range(len(base)) for j in range(i + 3, len(base) + 1)
                 if re.fullmatch(r"[g-z][a-z-]*[g-z]", base[i:j]) and base[i:j] not in "netconanremoved" and base[i:j] != base]
+        # ... and nowhere else in the fixed vocabulary (a listed word inside `snmp-community` is rightly replaced there)
+        toks = set((G.VOCAB_TEXT + "\n" + forbidden).lower().split())
+        subs = [w for w in subs if all(w not in t or t == base for t in toks)]
         if subs:
             w = r.choice(subs)
             if w not in [x.lower() for x in o["words"]]:
